@@ -20,3 +20,25 @@ class Good(Transform):
     def inverse(self, inputs, context=None):
         outputs = F.dropout(inputs, p=0.1, training=self.training)
         return outputs, inputs.new_zeros(inputs.shape[0])
+
+
+class Norm(Transform):
+    def __init__(self, features):
+        super().__init__()
+        self.register_buffer("initialized", torch.tensor(False, dtype=torch.bool))
+        self.shift = nn.Parameter(torch.zeros(features))
+
+    def _load_from_state_dict(self, state_dict, prefix, *args, **kwargs):
+        key = prefix + "initialized"
+        if key not in state_dict:
+            state_dict[key] = torch.tensor(True, dtype=torch.bool)
+        super()._load_from_state_dict(state_dict, prefix, *args, **kwargs)
+
+    def forward(self, inputs, context=None):
+        return inputs + self.shift, inputs.new_zeros(inputs.shape[0])
+
+
+class Piecewise(Transform):
+    def forward(self, inputs, context=None):
+        outputs = torch.where(inputs > 1, torch.log(torch.clamp(inputs, min=1.0)) + 1, inputs)
+        return outputs, inputs.new_zeros(inputs.shape[0])
